@@ -96,6 +96,7 @@ struct FamilySpec {
         if (kind == "density") s += ":rep=" + std::to_string(rep) + ":w=" + std::to_string(width) + ":word=" + std::to_string(word) + ":seam=" + std::to_string(seam);
         else if (kind == "chunktail") s += ":rep=" + std::to_string(rep) + ":w=" + std::to_string(width) + ":word=" + std::to_string(word);
         else if (kind == "longrun") s += ":n=" + std::to_string(n) + ":seam=" + std::to_string(seam) + ":rep=" + std::to_string(rep) + ":w=" + std::to_string(width) + ":word=" + std::to_string(word);
+        else if (kind == "span") s += ":rep=" + std::to_string(rep) + ":w=" + std::to_string(width) + ":word=" + std::to_string(word);
         else if (kind == "seam") s += ":n=" + std::to_string(n) + ":seam=" + std::to_string(seam) + ":w=" + std::to_string(width) + ":word=" + std::to_string(word);
         else { s += ":rep=" + std::to_string(rep) + ":b="; for (size_t i = 0; i < blocks.size(); ++i) s += (i ? "." : "") + std::to_string(blocks[i]); }
         return s;
@@ -132,6 +133,7 @@ template<typename K> bool generate_family(const FamilySpec &f, size_t eps, std::
     W hi = std::is_floating_point_v<K> ? (W(1) << 23) : W(max_valid<K>());
     std::vector<W> keys;
     std::vector<size_t> focus;   // positions whose keys (and neighbours) are queried
+    std::vector<W> extra;        // further query values (inside gaps)
     if (f.kind == "seam") {
         size_t n = size_t(f.n), p = size_t(f.chunks), chunk = n / p;
         keys.resize(n);
@@ -230,11 +232,30 @@ template<typename K> bool generate_family(const FamilySpec &f, size_t eps, std::
             cur = keys.back();
         }
         if (cur > hi) return false;
+    } else if (f.kind == "span") {
+        // `rep` clusters of 2*eps+2 consecutive keys spread evenly over the WHOLE domain of the key type: the first cluster starts `width`
+        // above lowest(), the last one ends `word` below the largest valid key (the reserved value minus one). Every computation on
+        // key differences (bucket widths, Elias-Fano universe, slopes) meets values next to the width of the type.
+        if constexpr (std::is_floating_point_v<K>) return false;
+        else {
+            W lo = W(std::numeric_limits<K>::lowest()) + f.width, top = W(max_valid<K>()) - f.word;
+            long csz = 2 * long(eps) + 2, S = f.rep;
+            if (S < 2) return false;
+            W stride = (top - lo - csz + 1) / (S - 1);
+            if (stride < csz + 2) return false;
+            for (long c = 0; c < S; ++c) {
+                W start = c == S - 1 ? top - csz + 1 : lo + stride * c;
+                size_t first_pos = keys.size();
+                for (long j = 0; j < csz; ++j) keys.push_back(start + j);
+                if (S <= 300 || c < 3 || c + 3 >= S || c % 29 == 0) { focus.push_back(first_pos); focus.push_back(first_pos + size_t(csz) - 1); extra.push_back(start + csz - 1 + stride / 2); extra.push_back(start + csz + 1); }
+            }
+        }
     } else return false;
 
     data.resize(keys.size());
     for (size_t i = 0; i < keys.size(); ++i) data[i] = K(keys[i]);
     for (size_t pos : focus) add_neighbours<K>(queries, data[pos]);
+    for (W x : extra) if (x >= W(std::numeric_limits<K>::lowest()) && x <= W(max_valid<K>())) queries.push_back(K(x));
     queries.push_back(std::numeric_limits<K>::lowest()); queries.push_back(max_valid<K>());
     add_neighbours<K>(queries, data.back());
     std::sort(queries.begin(), queries.end());
